@@ -236,37 +236,73 @@ def replay(world, ob_):
     return hn.replay("C04", world, ob_)
 
 
+def _native_history(version, steps):
+    gw, tr = native.make_gateway(version, ())
+    outs = []
+    for st in steps:
+        if st[0] == "recv":
+            tr.reads.append(st[1])
+            try:
+                m = native.run(gw.listen().__anext__())
+                outs.append(("yield", m.node_id, m.child_id, m.command, m.message_type, m.payload))
+            except Exception as e:  # noqa: BLE001
+                outs.append(("error", type(e).__name__))
+        elif st[0] == "send":
+            from aiomysensors.model.message import Message
+            try:
+                native.run(gw.send(Message(*st[1:7]), message_buffer=st[7]))
+                outs.append(("sent",))
+            except Exception as e:  # noqa: BLE001
+                outs.append(("send-error", type(e).__name__))
+    return outs, rm.real_view(gw), list(tr.writes)
+
+
+def _comparable(steps, a, b):
+    for st in steps:
+        if st[0] == "fail":
+            return False
+        if st[0] == "recv":
+            f = st[1].split(";")
+            if len(f) >= 5 and f[2] == "3" and f[4] in ("22", "32", "2", "1"):
+                return False  # heartbeat / pre-sleep (stated exception), version traffic
+            if len(f) >= 5 and f[2] == "0" and f[4] in ("17", "18") and f[0] == "0":
+                return False  # a gateway presentation switches the protocol version itself
+    return True
+
+
 def bounded(world, tier, seed, rep):
-    """Bounded stand-in: the same random histories under every ordered pair of versions of one major line must agree natively."""
+    """Bounded stand-in: the same histories (scripted multi-step ones and random ones) under the ordered pairs of versions of one
+    major line must agree natively."""
     import random
-    from . import refmodel as rm
-    from pyvc import native
     rng = random.Random(seed)
     pairs = [("1.4", "1.5"), ("2.0", "2.1"), ("2.1", "2.2"), ("2.0", "2.2")]
     n, bad = 0, None
+    for a, b in pairs:
+        for steps in hn.scripted(a):
+            if not _comparable(steps, a, b):
+                continue
+            ra, rb = _native_history(a, steps), _native_history(b, steps)
+            n += 1
+            if ra != rb and bad is None:
+                i = next((i for i, (x, y) in enumerate(zip(ra[0], rb[0])) if x != y), None)
+                bad = {"versions": [a, b], "history": steps, "observed": f"first differing step {i}: {ra[0][i] if i is not None else ra[1]} vs {rb[0][i] if i is not None else rb[1]}"}
     budget = 60 if tier == "quick" else 1500
     for _ in range(budget):
         a, b = rng.choice(pairs)
         al = [l for l in hn.alphabet(a) if ";3;0;22;" not in l and ";3;0;32;" not in l and "garbage" not in l and ";3;0;2;" not in l and ";0;0;17;" not in l
               and ";3;0;1;" not in l]
         steps = [("recv", rng.choice(al)) for _ in range(rng.randint(1, 8))]
-        res = []
-        for v in (a, b):
-            gw, tr = native.make_gateway(v, ())
-            outs = []
-            for st in steps:
-                tr.reads.append(st[1])
-                try:
-                    m = native.run(gw.listen().__anext__())
-                    outs.append(("yield", m.node_id, m.child_id, m.command, m.message_type, m.payload))
-                except Exception as e:  # noqa: BLE001
-                    outs.append(("error", type(e).__name__))
-            res.append((outs, rm.real_view(gw), list(tr.writes)))
+        ra, rb = _native_history(a, steps), _native_history(b, steps)
         n += 1
-        if res[0] != res[1] and bad is None:
-            bad = {"versions": [a, b], "history": steps, "observed": f"{res[0]} vs {res[1]}"}
-    return {"label": "bounded", "scope": f"{budget} random histories (<= 8 lines, types of the older version) x version pairs of one major line",
+        if ra != rb and bad is None:
+            bad = {"versions": [a, b], "history": steps, "observed": f"{ra} vs {rb}"[:600]}
+    return {"label": "bounded", "scope": f"scripted multi-step histories + {budget} random histories (<= 8 lines, types of the older version) x version pairs of one major line",
             "evaluations": n, "native_failure": bad}
+
+
+def bounded_search(world, unit_name):
+    r = bounded(world, "quick", 0, None)
+    return [dict(r["native_failure"], clause="C19/native-cross-version")] if r["native_failure"] else []
 
 
 def rebuild_inlined(world, failing_helpers):
